@@ -71,12 +71,23 @@ func VerifC13_AdapterReturns() {
 	c.SetTimeout(timeouts[verifChoice(len(timeouts))])
 	done := make(chan verifResult, 1)
 	oneway := verifChoice(2) == 1
+	var elapsed time.Duration
 	go func() {
+		t0 := time.Now()
 		if oneway {
-			done <- verifResult{err: ft.Oneway(c, []byte{0, 0, 0, 1, 7})}
+			err := ft.Oneway(c, []byte{0, 0, 0, 1, 7})
+			elapsed = time.Since(t0)
+			done <- verifResult{err: err}
 			return
 		}
-		verifRequest(ft, c, done)
+		res, err := ft.Request(c, []byte{0, 0, 0, 1, 7})
+		elapsed = time.Since(t0)
+		r := verifResult{err: err}
+		if err == nil && res != nil {
+			r.opid, r.data = verifFrameOpID(res)
+			r.valid = true
+		}
+		done <- r
 	}()
 	if behaviour == 2 {
 		// a late answer: may arrive before or after the deadline
@@ -85,6 +96,7 @@ func VerifC13_AdapterReturns() {
 		verifReach("late-answer")
 	}
 	r := <-done // a call that never returns is a deadlock here
+	verifAssert(elapsed <= c.Timeout(), "the call returns no later than its timeout")
 	if r.err != nil {
 		te, ok := r.err.(thrift.TTransportException)
 		verifAssert(ok && te.TypeId() == TRANSPORT_EXCEPTION_TIMED_OUT, "the only failure is TIMED_OUT")
@@ -110,6 +122,10 @@ func VerifC13_NatsReturns() {
 	timeouts := []time.Duration{500 * time.Microsecond, time.Millisecond, 2500 * time.Microsecond}
 	c.SetTimeout(timeouts[verifChoice(len(timeouts))])
 	behaviour := verifParam()
+	if behaviour == 2 {
+		b.stallFlush = true // connected, accepts writes, never answers PING
+		verifReach("stalled-flush")
+	}
 	if behaviour == 1 {
 		// late answer published by the "server" when it sees the request
 		b.onPublish = func(p verifPub) {
@@ -119,9 +135,30 @@ func VerifC13_NatsReturns() {
 		}
 	}
 	done := make(chan verifResult, 1)
-	go verifRequest(tr, c, done)
+	oneway := verifChoice(2) == 1
+	var elapsed time.Duration
+	go func() {
+		t0 := time.Now()
+		if oneway {
+			err := tr.Oneway(c, []byte{0, 0, 0, 1, 7})
+			elapsed = time.Since(t0)
+			done <- verifResult{err: err}
+			return
+		}
+		res, err := tr.Request(c, []byte{0, 0, 0, 1, 7})
+		elapsed = time.Since(t0)
+		r := verifResult{err: err}
+		if err == nil && res != nil {
+			r.opid, r.data = verifFrameOpID(res)
+			r.valid = true
+		}
+		done <- r
+	}()
 	r := <-done
-	if r.err != nil {
+	verifAssert(elapsed <= c.Timeout(), "the call returns no later than its timeout")
+	if oneway {
+		verifAssert(r.err == nil, "a oneway returns once the message is handed to the connection")
+	} else if r.err != nil {
 		te, ok := r.err.(thrift.TTransportException)
 		verifAssert(ok && te.TypeId() == TRANSPORT_EXCEPTION_TIMED_OUT, "the only failure is TIMED_OUT")
 		verifReach("timed-out")
